@@ -161,6 +161,13 @@ fn count_body<A: SymGen>() {
     crate::witness!(n == 3, "three occurrences");
 }
 
+/// reuse of one buffer through the dispatcher (`Pipeline::dispatch().stripe_into`)
+fn dispatch_history_body<A: SymGen, const L: usize, const L2: usize>(arm: Dispatch) {
+    set_verif_override(Some(arm));
+    let pli = Pipeline::<A, Dispatch>::dispatch();
+    history_body::<A, U32, _, L, 1, 0, L2>(&pli);
+}
+
 fn generic<A: Alphabet>() -> Pipeline<A, Generic> {
     Pipeline::generic()
 }
@@ -197,6 +204,10 @@ harness!(none, 40, c04_generic_hist_c4_l5_w1_w3_l9, history_body::<Dna, U4, _, 5
 harness!(none, 40, c04_generic_hist_c4_l9_w4_w2_l3, history_body::<Dna, U4, _, 9, 4, 2, 3>(&generic()));
 //@ C04 quick 900 generic: stripe L=4, configure_wrap(0), configure_wrap(2), stripe_into L=0
 harness!(none, 40, c04_generic_hist_c4_l4_w0_w2_l0, history_body::<Dna, U4, _, 4, 0, 2, 0>(&generic()));
+//@ C04 quick 900 generic: stripe L=8 (R=2, full), configure_wrap(1), stripe_into L=5 (a whole padding column over stale symbols), configure_wrap(1)
+harness!(none, 40, c04_generic_hist_c4_l8_w1_w0_l5, history_body::<Dna, U4, _, 8, 1, 0, 5>(&generic()));
+//@ C04 quick 1800 generic: stripe L=32 (C=16, R=2), configure_wrap(2), stripe_into L=17 (whole padding columns), configure_wrap(2)
+harness!(none, 40, c04_generic_hist_c16_l32_w2_w0_l17, history_body::<Dna, U16, _, 32, 2, 0, 17>(&generic()));
 //@ C04 thorough 1800 generic: protein C=2 L=5 (R=3), wrap 2 then 5, reuse with L=6
 harness!(none, 40, c04_generic_hist_prot_c2_l5_w2_w5_l6, history_body::<Protein, U2, _, 5, 2, 5, 6>(&generic()));
 
@@ -216,8 +227,12 @@ harness!(avx2, 70, c04_avx2_dna_l32, fresh_body::<Dna, U32, _, 32>(&avx2()));
 harness!(avx2, 70, c04_avx2_dna_l33, fresh_body::<Dna, U32, _, 33>(&avx2()));
 //@ C04 quick 2400 AVX2 stripe, protein, L=33
 harness!(avx2, 70, c04_avx2_protein_l33, fresh_body::<Protein, U32, _, 33>(&avx2()));
-//@ C04 quick 3600 AVX2: stripe L=33 (R=2), configure_wrap(1), configure_wrap(3), stripe_into L=65, configure_wrap(1)
+//@ C04 quick 3600 AVX2: stripe L=64 (R=2, full), configure_wrap(1), configure_wrap(3), stripe_into L=33 (whole padding columns over stale symbols), configure_wrap(1)
+harness!(avx2, 100, c04_avx2_hist_l64_w1_w3_l33, history_body::<Dna, U32, _, 64, 1, 3, 33>(&avx2()));
+//@ C04 thorough 5400 AVX2: stripe L=33 (R=2), configure_wrap(1), configure_wrap(3), stripe_into L=65, configure_wrap(1)
 harness!(avx2, 100, c04_avx2_hist_l33_w1_w3_l65, history_body::<Dna, U32, _, 33, 1, 3, 65>(&avx2()));
+//@ C04 quick 3600 dispatcher (SSE2 arm = generic striping), C=32: stripe L=64, stripe_into L=33 into the same buffer
+harness!(avx2, 100, c04_dispatch_sse2_hist_l64_l33, dispatch_history_body::<Dna, 64, 33>(Dispatch::Sse2));
 //@ C04 thorough 1800 AVX2: stripe L=65 (R=3), configure_wrap(4), configure_wrap(2), stripe_into L=0
 harness!(avx2, 100, c04_avx2_hist_l65_w4_w2_l0, history_body::<Dna, U32, _, 65, 4, 2, 0>(&avx2()));
 //@ C04 thorough 1800 AVX2 stripe, DNA, L=65
